@@ -240,7 +240,7 @@ Proof.
     (match s_presp sc with PResp _ _ (Some false) => true | _ => false end)
     (action_eqb a (act_of lvl t)).
   intros a0 idn ex ts rv hT hR sk pti prv ae.
-  destruct t, ae, f, a0, idn, ex, ts, rv, hT, hR, sk, pti, prv; cbn; congruence.
+  destruct t; apply implb_elim; clear; enum_all.
 Qed.
 
 Lemma set_auth_truthful lvl sc rs : authenticity_failed sc = true ->
@@ -344,7 +344,7 @@ Definition after_native (lvl : level) (sc : scenario) (caps : list cap) (gets : 
   | (e, rs, called) => mk_obs e rs called gets None
   end.
 
-Lemma run_cases lvl sc :
+Lemma run_unfold lvl sc :
   verify_core lvl sc =
   if s_integrity_ok sc then
     match discover sc with
@@ -366,7 +366,7 @@ Lemma run_decomp lvl sc :
   \/ (s_integrity_ok sc = true /\ s_nonstring_crit sc = false /\ plugin_unusable sc = false
       /\ exists gets, verify_core lvl sc = after_native lvl sc (caps_of sc) gets (plugin_demanded sc)).
 Proof.
-  rewrite (run_cases lvl sc). pose proof (discover_spec sc) as DS.
+  rewrite (run_unfold lvl sc). pose proof (discover_spec sc) as DS.
   destruct (s_integrity_ok sc); [|left; auto]. right.
   destruct (discover sc) as [e gets| |n vc].
   - left. destruct DS as [NE PU]. repeat split; [exact PU|]. eauto.
@@ -375,3 +375,721 @@ Proof.
   - right. destruct DS as (UC & PD & NS & _). unfold plugin_unusable, caps_of. rewrite PD, NS, UC.
     repeat split. eauto.
 Qed.
+
+(* ================================================================== *)
+(* E. what a run does, as functions of the scenario                    *)
+(* ================================================================== *)
+
+Section AfterNative.
+  Variables (lvl : level) (sc : scenario) (caps : list cap) (gets : list string) (plugin : bool).
+  Let hT := has_cap CapTI caps.
+  Let hR := has_cap CapRev caps.
+  Let tv := caps_to_verify lvl caps.
+
+  Lemma after_native_called :
+    o_rev_called (after_native lvl sc caps gets plugin) = (pre_ok lvl sc hT && native_rev lvl hR).
+  Proof.
+    destruct (native_parts lvl sc caps) as (_ & C & _). fold hT hR in C. rewrite <- C.
+    unfold after_native. destruct (native lvl sc caps) as [[e rs] called]. cbn [snd].
+    destruct e; try reflexivity.
+    destruct (caps_to_verify lvl caps); [destruct (negb plugin && any_critical_attribute sc); reflexivity|].
+    destruct (s_presp sc) as [|p ti rev]; [reflexivity|].
+    destruct (process_plugin_response crit_processed lvl sc (c :: l) p ti rev rs). reflexivity.
+  Qed.
+
+  Lemma after_native_exec :
+    o_exec (after_native lvl sc caps gets plugin)
+    = if native_ok lvl sc hT hR && nonempty tv then Some (tv, other_keys sc) else None.
+  Proof.
+    destruct (native_parts lvl sc caps) as (E & _). fold hT hR in E. rewrite <- E.
+    unfold after_native, tv. destruct (native lvl sc caps) as [[e rs] called]. cbn [fst].
+    destruct e; try reflexivity. cbn [err_eqb andb].
+    destruct (caps_to_verify lvl caps); [destruct (negb plugin && any_critical_attribute sc); reflexivity|].
+    cbn [nonempty].
+    destruct (s_presp sc) as [|p ti rev]; [reflexivity|].
+    destruct (process_plugin_response crit_processed lvl sc (c :: l) p ti rev rs). reflexivity.
+  Qed.
+
+  Lemma after_native_accepted :
+    accepted (after_native lvl sc caps gets plugin)
+    = native_ok lvl sc hT hR
+      && match tv with
+         | [] => negb (negb plugin && any_critical_attribute sc)
+         | _ :: _ =>
+             match s_presp sc with
+             | PErr => false
+             | PResp p ti rev =>
+                 crit_processed sc p
+                 && caps_fine (has_cap CapTI tv) (has_cap CapRev tv) ti rev (l_auth lvl) (l_rev lvl)
+             end
+         end.
+  Proof.
+    destruct (native_parts lvl sc caps) as (E & _ & AA & _). fold hT hR in E. rewrite <- E.
+    unfold after_native, tv, accepted. destruct (native lvl sc caps) as [[e rs] called]. cbn [fst snd] in *.
+    destruct e; try reflexivity. cbn [err_eqb andb].
+    destruct (caps_to_verify lvl caps) as [|c l];
+      [destruct (negb plugin && any_critical_attribute sc); reflexivity|].
+    destruct (s_presp sc) as [|p ti rev]; [reflexivity|].
+    unfold process_plugin_response. destruct (crit_processed sc p); cbn [negb andb]; [|reflexivity].
+    pose proof (process_caps_accept lvl ti rev (c :: l) rs) as PA. rewrite AA in PA.
+    destruct (process_caps lvl ti rev (c :: l) rs) as [e rs5]. exact PA.
+  Qed.
+
+  (* result types: those of the native stage, then revocation results of the plugin stage *)
+  Lemma after_native_types :
+    exists k, map r_type (o_results (after_native lvl sc caps gets plugin))
+              = native_types lvl sc hT hR ++ repeat TRev k
+              /\ (has_cap CapRev tv = false -> k = 0%nat)
+              /\ (o_exec (after_native lvl sc caps gets plugin) = None -> k = 0%nat).
+  Proof.
+    destruct (native_parts lvl sc caps) as (_ & _ & _ & _ & T & _). fold hT hR in T. rewrite <- T.
+    unfold after_native, tv. destruct (native lvl sc caps) as [[e rs] called]. cbn [fst snd].
+    assert (Z : forall o, o_results o = rs ->
+                exists k, map r_type (o_results o) = map r_type rs ++ repeat TRev k
+                          /\ (has_cap CapRev (caps_to_verify lvl caps) = false -> k = 0%nat)
+                          /\ (o_exec o = None -> k = 0%nat))
+      by (intros o ->; exists 0%nat; cbn; now rewrite app_nil_r).
+    destruct e; try (apply Z; reflexivity).
+    destruct (caps_to_verify lvl caps) as [|c l] eqn:TV;
+      [destruct (negb plugin && any_critical_attribute sc); apply Z; reflexivity|].
+    destruct (s_presp sc) as [|p ti rev]; [apply Z; reflexivity|].
+    unfold process_plugin_response. destruct (negb (crit_processed sc p)); [apply Z; reflexivity|].
+    destruct (process_caps_types lvl ti rev (c :: l) rs) as (k & Ek & Zk).
+    destruct (process_caps lvl ti rev (c :: l) rs) as [e rs5]. exists k. cbn [snd o_results o_exec] in *.
+    repeat split; auto. discriminate.
+  Qed.
+End AfterNative.
+
+(* the same with caps = the capabilities of the usable plugin: truthful results *)
+Lemma after_native_truthful lvl sc gets plugin : s_integrity_ok sc = true ->
+  forallb (res_truthful lvl sc) (o_results (after_native lvl sc (caps_of sc) gets plugin)) = true.
+Proof.
+  intros IO.
+  destruct (native_parts lvl sc (caps_of sc)) as (_ & _ & _ & F & _).
+  assert (F0 : forallb (res_truthful lvl sc) (snd (fst (native lvl sc (caps_of sc)))) = true).
+  { rewrite forallb_forall in *. intros r HIn. apply (nat_res_truthful lvl sc r IO). now apply F. }
+  clear F. unfold after_native. destruct (native lvl sc (caps_of sc)) as [[e rs] called]. cbn [fst snd] in F0.
+  destruct e; try exact F0.
+  destruct (caps_to_verify lvl (caps_of sc)) as [|c l] eqn:TV;
+    [destruct (negb plugin && any_critical_attribute sc); exact F0|].
+  destruct (s_presp sc) as [|p ti rev] eqn:PR; [exact F0|].
+  unfold process_plugin_response. destruct (negb (crit_processed sc p)); [exact F0|].
+  assert (HT : has_cap CapTI (c :: l) = true -> has_cap CapTI (caps_of sc) = true)
+    by (rewrite <- TV, ctv_TI; auto).
+  assert (HR : has_cap CapRev (c :: l) = true -> has_cap CapRev (caps_of sc) = true)
+    by (rewrite <- TV, ctv_Rev; intros H; apply andb_true_iff in H; tauto).
+  pose proof (process_caps_truthful lvl sc p ti rev PR (c :: l) rs HT HR F0) as F1.
+  destruct (process_caps lvl ti rev (c :: l) rs) as [e rs5]. exact F1.
+Qed.
+
+(* ---------- the acceptance rule, without input contract ---------- *)
+Lemma not_demanded_has sc : plugin_demanded sc = false ->
+  has_cap CapTI (caps_of sc) = false /\ has_cap CapRev (caps_of sc) = false.
+Proof. intros H. rewrite (not_demanded_caps sc H). auto. Qed.
+
+Theorem exact_all lvl sc : accepted (verify_core lvl sc) = negb (should_fail_impl lvl sc).
+Proof.
+  destruct (run_decomp lvl sc) as [[IO ->] | [(IO & PU & e & gets & NE & ->) | (IO & NS & PU & gets & ->)]].
+  - unfold should_fail_impl. rewrite IO. reflexivity.
+  - unfold should_fail_impl, plugin_or_attribute_problem. rewrite IO, PU.
+    destruct NE as [-> | ->]; reflexivity.
+  - rewrite after_native_accepted.
+    pose proof (caps_of_no_other sc) as NO.
+    pose proof (ctv_TI lvl (caps_of sc)) as TI. pose proof (ctv_Rev lvl (caps_of sc)) as RV.
+    pose proof (no_other_nonempty _ (ctv_no_other lvl _ NO)) as NE. rewrite TI, RV in NE.
+    pose proof (not_demanded_has sc) as ND.
+    unfold should_fail_impl, plugin_or_attribute_problem, plugin_exec_problem, nothing_processes, enforced_failure,
+      authenticity_failed, identity_failed, revocation_failed, asked, native_ok, pre_ok, native_rev,
+      native_auth_failed_with, na0, caps_fine, any_critical_attribute, has_critical, skipb in *.
+    rewrite IO, NS, PU.
+    destruct lvl as [la lt le lr]. cbn [l_auth l_ts l_exp l_rev] in *.
+    destruct (caps_to_verify _ (caps_of sc)) as [|c l]; [|rewrite TI, RV]; clear TI RV NO; cbn [nonempty] in NE.
+    all: destruct (plugin_demanded sc); [clear ND | destruct (ND eq_refl) as [HT HR]; rewrite HT, HR in *; clear ND HT HR].
+    all: destruct (s_presp sc) as [|p ti rev]; [|generalize (crit_processed sc p); intros cp].
+    all: destruct (other_crit sc); destruct (s_minver_attr sc).
+    all: revert NE.
+    all: generalize (s_auth sc =? 0)%N (s_identity_ok sc) (s_expired sc) (s_ts_ok sc) (s_rev_ok sc)
+           (has_cap CapTI (caps_of sc)) (has_cap CapRev (caps_of sc)).
+    all: intros a0 idn ex ts rv hT hR NE.
+    all: destruct hT, hR, lr; cbn in NE; try discriminate NE; clear; apply Bool.eqb_prop; enum_all.
+Qed.
+
+(* ---------- monotonicity, without input contract ---------- *)
+Lemma pap_mono_all l1 l2 sc : action_le (l_rev l1) (l_rev l2) = true ->
+  plugin_or_attribute_problem l2 sc = true -> plugin_or_attribute_problem l1 sc = true.
+Proof.
+  pose proof (caps_of_no_other sc) as NO.
+  pose proof (ctv_TI l1 (caps_of sc)) as TI1. pose proof (ctv_Rev l1 (caps_of sc)) as RV1.
+  pose proof (no_other_nonempty _ (ctv_no_other l1 _ NO)) as NE1. rewrite TI1, RV1 in NE1.
+  pose proof (ctv_TI l2 (caps_of sc)) as TI2. pose proof (ctv_Rev l2 (caps_of sc)) as RV2.
+  pose proof (no_other_nonempty _ (ctv_no_other l2 _ NO)) as NE2. rewrite TI2, RV2 in NE2.
+  pose proof (not_demanded_has sc) as ND.
+  unfold plugin_or_attribute_problem, plugin_exec_problem, nothing_processes, asked, skipb in *.
+  destruct l1 as [a1 t1 e1 r1], l2 as [a2 t2 e2 r2]. cbn [l_rev] in *.
+  destruct (caps_to_verify {| l_auth := a1; l_ts := t1; l_exp := e1; l_rev := r1 |} (caps_of sc)) as [|c1 v1];
+    [|rewrite TI1, RV1]; clear TI1 RV1; cbn [nonempty] in NE1.
+  all: destruct (caps_to_verify {| l_auth := a2; l_ts := t2; l_exp := e2; l_rev := r2 |} (caps_of sc)) as [|c2 v2];
+    [|rewrite TI2, RV2]; clear TI2 RV2 NO; cbn [nonempty] in NE2.
+  all: destruct (plugin_demanded sc); [clear ND | destruct (ND eq_refl) as [HT HR]; rewrite HT, HR in *; clear ND HT HR].
+  all: destruct (s_presp sc) as [|p ti rev]; [|generalize (crit_processed sc p); intros cp].
+  all: revert NE1 NE2.
+  all: generalize (s_nonstring_crit sc) (plugin_unusable sc) (has_critical sc)
+         (has_cap CapTI (caps_of sc)) (has_cap CapRev (caps_of sc)).
+  all: intros ns pu hc hT hR NE1 NE2 LE.
+  all: destruct hT, hR, r1, r2; cbn in NE1, NE2, LE; try discriminate NE1; try discriminate NE2; try discriminate LE.
+  all: clear; apply implb_elim; enum_all.
+Qed.
+
+Lemma sfi_mono_all l1 l2 sc : level_le l1 l2 = true ->
+  should_fail_impl l2 sc = true -> should_fail_impl l1 sc = true.
+Proof.
+  intros LE. unfold level_le in LE. rewrite !andb_true_iff in LE. destruct LE as [[[LA LT] LX] LR].
+  unfold should_fail_impl, enforced_failure. rewrite !orb_true_iff.
+  intros [[I | P] | [[[A | X] | T] | R]].
+  - auto.
+  - left. right. eapply pap_mono_all; eassumption.
+  - right. left. left. left. eapply enforced_mono; eassumption.
+  - right. left. left. right. eapply enforced_mono; eassumption.
+  - right. left. right. eapply enforced_mono; eassumption.
+  - right. right. eapply enforced_mono; eassumption.
+Qed.
+
+Theorem monotone_all l1 l2 sc : level_le l1 l2 = true ->
+  accepted (verify_core l1 sc) = true -> accepted (verify_core l2 sc) = true.
+Proof.
+  intros LE. rewrite !exact_all, !negb_true_iff.
+  intros H. destruct (should_fail_impl l2 sc) eqn:E; [|reflexivity].
+  rewrite (sfi_mono_all l1 l2 sc LE E) in H. discriminate.
+Qed.
+
+Theorem monotone_named_all ov sc ls lp la :
+  level_for "strict" ov = Some ls -> level_for "permissive" ov = Some lp -> level_for "audit" ov = Some la ->
+  (accepted (verify_core ls sc) = true -> accepted (verify_core lp sc) = true)
+  /\ (accepted (verify_core lp sc) = true -> accepted (verify_core la sc) = true).
+Proof.
+  intros S P A. split; apply monotone_all.
+  - eapply named_order; [left; split; reflexivity | exact S | exact P].
+  - eapply named_order; [right; left; split; reflexivity | exact P | exact A].
+Qed.
+
+(* ---------- which validations are performed (functional characterisation) ---------- *)
+Definition hasTI (sc : scenario) : bool := has_cap CapTI (caps_of sc).
+Definition hasRev (sc : scenario) : bool := has_cap CapRev (caps_of sc).
+
+(* integrity passed and plugin discovery did not end the run *)
+Definition discovery_ok (sc : scenario) : bool :=
+  s_integrity_ok sc && negb (s_nonstring_crit sc) && negb (plugin_unusable sc).
+
+(* the validation of type t is performed by notation itself *)
+Definition performed (lvl : level) (sc : scenario) (t : vtype) : bool :=
+  match t with
+  | TIntegrity => true
+  | TAuth => discovery_ok sc
+  | TExpiry => discovery_ok sc && reach_exp lvl sc (hasTI sc)
+  | TTimestamp => discovery_ok sc && reach_ts lvl sc (hasTI sc)
+  | TRev => discovery_ok sc && pre_ok lvl sc (hasTI sc) && native_rev lvl (hasRev sc)
+  end.
+
+(* the verification plugin is executed *)
+Definition plugin_run (lvl : level) (sc : scenario) : bool :=
+  discovery_ok sc && native_ok lvl sc (hasTI sc) (hasRev sc) && nonempty (asked lvl sc).
+
+Definition run_types (lvl : level) (sc : scenario) : list vtype :=
+  TIntegrity :: filter (performed lvl sc) [TAuth; TExpiry; TTimestamp; TRev].
+
+Theorem rev_called_exact lvl sc : o_rev_called (verify_core lvl sc) = performed lvl sc TRev.
+Proof.
+  unfold performed, discovery_ok.
+  destruct (run_decomp lvl sc) as [[IO ->] | [(IO & PU & e & gets & NE & ->) | (IO & NS & PU & gets & ->)]].
+  - rewrite IO. reflexivity.
+  - rewrite IO. cbn [o_rev_called andb]. apply orb_true_iff in PU. destruct PU as [-> | ->]; cbn; now rewrite ?andb_false_r.
+  - rewrite after_native_called, IO, NS, PU. reflexivity.
+Qed.
+
+Theorem exec_exact lvl sc :
+  o_exec (verify_core lvl sc) = if plugin_run lvl sc then Some (asked lvl sc, other_keys sc) else None.
+Proof.
+  unfold plugin_run, discovery_ok.
+  destruct (run_decomp lvl sc) as [[IO ->] | [(IO & PU & e & gets & NE & ->) | (IO & NS & PU & gets & ->)]].
+  - rewrite IO. reflexivity.
+  - rewrite IO. cbn [o_exec andb]. apply orb_true_iff in PU. destruct PU as [-> | ->]; cbn; now rewrite ?andb_false_r.
+  - rewrite after_native_exec, IO, NS, PU. reflexivity.
+Qed.
+
+Theorem truthful_all lvl sc : forallb (res_truthful lvl sc) (o_results (verify_core lvl sc)) = true.
+Proof.
+  destruct (run_decomp lvl sc) as [[IO ->] | [(IO & PU & e & gets & NE & ->) | (IO & NS & PU & gets & ->)]].
+  - cbn. unfold res_truthful. cbn. rewrite IO. reflexivity.
+  - cbn. unfold res_truthful. cbn. rewrite IO. reflexivity.
+  - now apply after_native_truthful.
+Qed.
+
+Theorem types_all lvl sc :
+  exists k, map r_type (o_results (verify_core lvl sc)) = run_types lvl sc ++ repeat TRev k
+            /\ (has_cap CapRev (asked lvl sc) = false -> k = 0%nat)
+            /\ (o_exec (verify_core lvl sc) = None -> k = 0%nat).
+Proof.
+  unfold run_types, performed, discovery_ok.
+  destruct (run_decomp lvl sc) as [[IO ->] | [(IO & PU & e & gets & NE & ->) | (IO & NS & PU & gets & ->)]].
+  - exists 0%nat. rewrite IO. split; [reflexivity | auto].
+  - exists 0%nat. rewrite IO. split; [|auto]. cbn [andb].
+    apply orb_true_iff in PU. destruct PU as [-> | ->]; cbn; rewrite ?andb_false_r; reflexivity.
+  - destruct (after_native_types lvl sc (caps_of sc) gets (plugin_demanded sc)) as (k & E & Z).
+    exists k. split; [|exact Z]. rewrite E, IO, NS, PU. unfold native_types, hasTI, hasRev. cbn [negb andb filter].
+    unfold reach_ts.
+    destruct (reach_exp lvl sc (has_cap CapTI (caps_of sc))); cbn [andb app];
+      destruct (negb (enforced (l_exp lvl) (s_expired sc))); cbn [andb app];
+      destruct (pre_ok lvl sc (has_cap CapTI (caps_of sc)) && native_rev lvl (has_cap CapRev (caps_of sc))); reflexivity.
+Qed.
+
+(* ---------- corollaries in the words of the property ---------- *)
+
+Lemma in_run_types lvl sc t : In t (run_types lvl sc) <-> t = TIntegrity \/ performed lvl sc t = true.
+Proof.
+  unfold run_types. cbn [In]. rewrite filter_In. cbn [In]. split.
+  - intros [<- | [_ P]]; auto.
+  - intros [-> | P]; [auto|]. destruct t; auto 10. 
+Qed.
+
+Lemma in_repeat_rev t k : In t (repeat TRev k) -> t = TRev.
+Proof. intros H. now apply repeat_spec in H. Qed.
+
+(* a validation notation performs itself is in the outcome; and, apart from the plugin's
+   revocation verdicts, nothing else is *)
+Theorem performed_reported lvl sc t :
+  (performed lvl sc t = true -> exists r, In r (o_results (verify_core lvl sc)) /\ r_type r = t)
+  /\ ((exists r, In r (o_results (verify_core lvl sc)) /\ r_type r = t) ->
+      performed lvl sc t = true
+      \/ (t = TRev /\ plugin_run lvl sc = true /\ In CapRev (asked lvl sc))).
+Proof.
+  destruct (types_all lvl sc) as (k & E & Z1 & Z2). split.
+  - intros P. assert (HIn : In t (map r_type (o_results (verify_core lvl sc)))).
+    { rewrite E. apply in_or_app. left. apply in_run_types. auto. }
+    apply in_map_iff in HIn. destruct HIn as (r & T & HIn). eauto.
+  - intros (r & HIn & T). assert (H : In t (map r_type (o_results (verify_core lvl sc)))).
+    { apply in_map_iff. eauto. }
+    rewrite E in H. apply in_app_or in H. destruct H as [H | H].
+    + apply in_run_types in H. destruct H as [-> | P]; auto.
+    + pose proof (in_repeat_rev _ _ H) as ->. right. split; [reflexivity|].
+      destruct (has_cap CapRev (asked lvl sc)) eqn:HC; [|rewrite (Z1 eq_refl) in H; destruct H].
+      split; [|now apply has_cap_In].
+      destruct (plugin_run lvl sc) eqn:PR; [reflexivity|]. exfalso.
+      pose proof (exec_exact lvl sc) as EX. rewrite PR in EX. rewrite (Z2 EX) in H. destruct H.
+Qed.
+
+Definition native_failed_fact (sc : scenario) (t : vtype) : bool :=
+  match t with
+  | TIntegrity => negb (s_integrity_ok sc)
+  | TAuth => native_auth_failed sc
+  | TExpiry => s_expired sc
+  | TTimestamp => negb (s_ts_ok sc)
+  | TRev => negb (s_rev_ok sc)
+  end.
+
+Lemma truthful_in lvl sc r : In r (o_results (verify_core lvl sc)) -> res_truthful lvl sc r = true.
+Proof. intros H. pose proof (truthful_all lvl sc) as F. rewrite forallb_forall in F. now apply F. Qed.
+
+(* whenever notation performs a validation whose action is log and it fails, the failure is in the
+   outcome, marked failed, with action log — whether the run is accepted or rejected later on *)
+Theorem log_reported_always lvl sc t :
+  t <> TIntegrity -> performed lvl sc t = true -> act_of lvl t = Log -> native_failed_fact sc t = true ->
+  In (mk_res t Log true) (o_results (verify_core lvl sc)).
+Proof.
+  intros NT P A F. destruct (proj1 (performed_reported lvl sc t) P) as (r & HIn & T).
+  pose proof (truthful_in lvl sc r HIn) as TR. unfold res_truthful in TR. apply andb_true_iff in TR.
+  destruct TR as [TA TF]. apply action_eqb_eq in TA. rewrite T, A in TA.
+  assert (FF : r_failed r = true).
+  { rewrite T in TF. destruct t; cbn in F.
+    - congruence.
+    - apply andb_true_iff in TF. destruct TF as [_ TF]. rewrite F in TF. exact TF.
+    - apply Bool.eqb_prop in TF. congruence.
+    - apply Bool.eqb_prop in TF. congruence.
+    - apply Bool.eqb_prop in TF. rewrite TF. unfold revocation_failed.
+      cbn in P. unfold native_rev, hasRev in P. rewrite !andb_true_iff, !negb_true_iff in P.
+      destruct P as [_ [_ HR]]. now rewrite HR. }
+  destruct r as [t' a' f']. cbn in *. subst. exact HIn.
+Qed.
+
+Theorem results_truthful lvl sc r : In r (o_results (verify_core lvl sc)) ->
+  r_action r = act_of lvl (r_type r)
+  /\ (r_type r = TIntegrity -> r_failed r = negb (s_integrity_ok sc))
+  /\ (r_type r = TExpiry -> r_failed r = s_expired sc)
+  /\ (r_type r = TTimestamp -> r_failed r = negb (s_ts_ok sc))
+  /\ (r_type r = TRev -> r_failed r = revocation_failed sc)
+  /\ (r_type r = TAuth -> (r_failed r = true -> authenticity_failed sc = true)
+                          /\ (native_auth_failed sc = true -> r_failed r = true)).
+Proof.
+  intros HIn. pose proof (truthful_in lvl sc r HIn) as TR. unfold res_truthful in TR.
+  apply andb_true_iff in TR. destruct TR as [TA TF]. apply action_eqb_eq in TA.
+  split; [exact TA|].
+  destruct (r_type r); (split; [intros T | split; [intros T | split; [intros T | split; intros T]]]);
+    try discriminate T; try (now apply Bool.eqb_prop in TF).
+  apply andb_true_iff in TF. destruct TF as [TF1 TF2]. split; intros F; rewrite F in *; assumption.
+Qed.
+
+Theorem skip_all lvl sc : l_rev lvl = Skip ->
+  o_rev_called (verify_core lvl sc) = false
+  /\ (forall cs attrs, o_exec (verify_core lvl sc) = Some (cs, attrs) -> ~ In CapRev cs)
+  /\ (forall r, In r (o_results (verify_core lvl sc)) -> r_type r <> TRev).
+Proof.
+  intros SK.
+  assert (NR : forall h, native_rev lvl h = false) by (intros h; unfold native_rev, skipb; now rewrite SK).
+  assert (AR : has_cap CapRev (asked lvl sc) = false).
+  { unfold asked. rewrite ctv_Rev. unfold skipb. rewrite SK. now rewrite andb_false_r. }
+  split; [|split].
+  - rewrite rev_called_exact. cbn. rewrite NR. now rewrite andb_false_r.
+  - intros cs attrs E. rewrite exec_exact in E. destruct (plugin_run lvl sc); [|discriminate].
+    injection E as <- _. intros H. apply has_cap_In in H. congruence.
+  - intros r HIn T.
+    destruct (proj2 (performed_reported lvl sc TRev)) as [P | (_ & _ & H)]; [eauto | |].
+    + cbn in P. rewrite NR, andb_false_r in P. discriminate.
+    + apply has_cap_In in H. congruence.
+Qed.
+
+(* a declared revocation capability: the validator is never consulted (no contract) *)
+Theorem rev_capability_not_consulted lvl sc : hasRev sc = true -> o_rev_called (verify_core lvl sc) = false.
+Proof.
+  intros H. rewrite rev_called_exact. cbn. unfold native_rev. rewrite H. cbn. now rewrite !andb_false_r.
+Qed.
+
+Theorem plugin_request_all lvl sc cs attrs :
+  o_exec (verify_core lvl sc) = Some (cs, attrs) ->
+  cs = asked lvl sc /\ cs <> [] /\ attrs = other_keys sc.
+Proof.
+  intros E. rewrite exec_exact in E. destruct (plugin_run lvl sc) eqn:PR; [|discriminate].
+  injection E as <- <-. repeat split.
+  unfold plugin_run in PR. rewrite !andb_true_iff in PR. destruct PR as [_ NE].
+  destruct (asked lvl sc); [discriminate | discriminate].
+Qed.
+
+Theorem actions_all lvl sc :
+  Forall (fun r => r_action r = act_of lvl (r_type r)) (o_results (verify_core lvl sc)).
+Proof. apply Forall_forall. intros r HIn. exact (proj1 (results_truthful lvl sc r HIn)). Qed.
+
+(* ================================================================== *)
+(* F. the reasons of the property text, spelled out                    *)
+(* ================================================================== *)
+
+(* the demand itself is malformed: header not critical, not a string, or blank *)
+Definition Demand_malformed (sc : scenario) : Prop :=
+  s_plugin_attr sc = ANotCritical \/ s_plugin_attr sc = ANotString
+  \/ exists n, s_plugin_attr sc = AStr n /\ blank n = true.
+(* the demanded minimum version is malformed: not critical, not a string, blank or not SemVer *)
+Definition Minver_malformed (sc : scenario) : Prop :=
+  s_minver_attr sc = ANotCritical \/ s_minver_attr sc = ANotString
+  \/ exists v, s_minver_attr sc = AStr v /\ (blank v = true \/ s_minver_valid sc = false).
+(* missing: no plugin manager, not installed, or it does not answer get-plugin-metadata *)
+Definition Plugin_missing (sc : scenario) : Prop :=
+  s_pm sc = PMNil \/ s_pm sc = PMNotInstalled \/ s_pm sc = PMMetaErr.
+(* too old: its version is not SemVer or below the demanded minimum *)
+Definition Plugin_too_old (sc : scenario) : Prop :=
+  exists vv ge caps, s_pm sc = PMPlugin vv ge caps /\ (vv = false \/ ge = false).
+(* lacks verification capabilities *)
+Definition Plugin_lacks_capabilities (sc : scenario) : Prop :=
+  exists vv ge caps, s_pm sc = PMPlugin vv ge caps /\ ~ In CapTI caps /\ ~ In CapRev caps.
+
+Lemma vcaps_nil caps : verification_caps caps = [] <-> ~ In CapTI caps /\ ~ In CapRev caps.
+Proof.
+  induction caps as [|c caps IH]; cbn [verification_caps filter In]; [tauto|].
+  fold (verification_caps caps).
+  destruct c; split; try discriminate; try (intros [H1 H2]; exfalso; tauto).
+  - intros H. apply IH in H. destruct H as [H1 H2]. split; intros [X|X]; try discriminate X; tauto.
+  - intros [H1 H2]. apply IH. tauto.
+Qed.
+
+Theorem plugin_unusable_iff sc :
+  plugin_unusable sc = true <->
+  plugin_demanded sc = true
+  /\ (Demand_malformed sc \/ Minver_malformed sc \/ Plugin_missing sc \/ Plugin_too_old sc
+      \/ Plugin_lacks_capabilities sc).
+Proof.
+  unfold plugin_unusable, plugin_demanded, usable_caps, attr_malformed,
+    Demand_malformed, Minver_malformed, Plugin_missing, Plugin_too_old, Plugin_lacks_capabilities.
+  destruct (s_plugin_attr sc) as [| | |n] eqn:PA.
+  - cbn. split; [discriminate | intros [H _]; discriminate].
+  - cbn. split; [intros _; split; auto | reflexivity].
+  - cbn. split; [intros _; split; auto | reflexivity].
+  - cbn [andb]. destruct (blank n) eqn:BN.
+    { cbn. split; [intros _; split; [reflexivity | left; right; right; eauto] | reflexivity]. }
+    destruct (s_minver_attr sc) as [| | |v] eqn:MA.
+    2,3: cbn; split; [intros _; split; [reflexivity | right; left; auto] | reflexivity].
+    2: destruct (blank v) eqn:BV;
+         [cbn; split; [intros _; split; [reflexivity | right; left; right; right; eauto] | reflexivity]|];
+       destruct (s_minver_valid sc) eqn:MV; cbn [negb];
+         [|cbn; split; [intros _; split; [reflexivity | right; left; right; right; eauto] | reflexivity]].
+    all: destruct (s_pm sc) as [| | |vv ge caps] eqn:PM.
+    all: try (cbn; split; [intros _; split; [reflexivity | right; right; left; auto] | reflexivity]).
+    all: destruct vv; [|cbn; split; [intros _; split; [reflexivity | right; right; right; left; eauto 8] | reflexivity]].
+    all: destruct ge; [|cbn; split; [intros _; split; [reflexivity | right; right; right; left; eauto 8] | reflexivity]].
+    all: destruct (verification_caps caps) eqn:VC.
+    all: try (cbn; split; [intros _; split; [reflexivity|]; right; right; right; right;
+                           exists true, true, caps; split; [reflexivity | now apply vcaps_nil] | reflexivity]).
+    all: cbn; split; [discriminate|]; intros [_ H]; exfalso.
+    all: destruct H as [[H|[H|(n0 & H & B)]] | [[H|[H|(v0 & H & B)]] | [[H|[H|H]] | [(a & b & c0 & H & B) | (a & b & c0 & H & B)]]]];
+      try discriminate H.
+    all: try (injection H as <-; congruence).
+    all: try (injection H as <-; destruct B; congruence).
+    all: try (injection H as <- <- <-; destruct B; discriminate).
+    all: try (injection H as <- <- <-; apply vcaps_nil in B; congruence).
+Qed.
+
+Lemma forallb_false_ex {A} (f : A -> bool) l : forallb f l = false <-> exists x, In x l /\ f x = false.
+Proof.
+  induction l as [|x l IH]; cbn; [split; [discriminate | intros (x & [] & _)]|].
+  rewrite andb_false_iff, IH. split.
+  - intros [H | (y & HIn & H)]; eauto.
+  - intros (y & [<- | HIn] & H); eauto.
+Qed.
+
+Lemma mem_str_false k l : mem_str k l = false <-> ~ In k l.
+Proof.
+  split.
+  - intros H HIn. assert (X : mem_str k l = true)
+      by (unfold mem_str; apply existsb_exists; exists k; split; [exact HIn | apply String.eqb_refl]).
+    congruence.
+  - intros H. destruct (mem_str k l) eqn:E; [|reflexivity]. apply mem_str_In in E. contradiction.
+Qed.
+
+Theorem plugin_exec_problem_iff lvl sc :
+  plugin_exec_problem lvl sc = true <->
+  asked lvl sc <> []
+  /\ (s_presp sc = PErr
+      \/ exists p ti rev, s_presp sc = PResp p ti rev
+           /\ ((exists k, In k (other_crit sc) /\ ~ In k p)
+               \/ (In CapTI (asked lvl sc) /\ ti = None)
+               \/ (In CapRev (asked lvl sc) /\ rev = None))).
+Proof.
+  unfold plugin_exec_problem. destruct (asked lvl sc) as [|c tv] eqn:AS.
+  - split; [discriminate | intros [H _]; congruence].
+  - rewrite <- AS. destruct (s_presp sc) as [|p ti rev].
+    + split; [intros _; split; [rewrite AS; discriminate | auto] | reflexivity].
+    + rewrite !orb_true_iff, !andb_true_iff, negb_true_iff, !has_cap_In.
+      unfold crit_processed. rewrite forallb_false_ex. split.
+      * intros H. split; [rewrite AS; discriminate|]. right. exists p, ti, rev. split; [reflexivity|].
+        destruct H as [[(k & HIn & M) | [HC N]] | [HC N]].
+        -- left. exists k. split; [exact HIn | now apply mem_str_false].
+        -- right. left. split; [exact HC | destruct ti; [discriminate | reflexivity]].
+        -- right. right. split; [exact HC | destruct rev; [discriminate | reflexivity]].
+      * intros [_ [H | (p' & ti' & rev' & E & H)]]; [discriminate|]. injection E as <- <- <-.
+        destruct H as [(k & HIn & M) | [[HC ->] | [HC ->]]].
+        -- left. left. exists k. split; [exact HIn | now apply mem_str_false].
+        -- left. right. auto.
+        -- right. auto.
+Qed.
+
+(* no plugin is demanded and the signature carries a critical extended attribute *)
+Theorem no_plugin_critical_iff lvl sc :
+  negb (plugin_demanded sc) && nothing_processes lvl sc = true <->
+  s_plugin_attr sc = AAbsent
+  /\ (other_crit sc <> [] \/ (s_minver_attr sc <> AAbsent /\ s_minver_attr sc <> ANotCritical)).
+Proof.
+  unfold nothing_processes, has_critical, asked.
+  destruct (plugin_demanded sc) eqn:PD.
+  - cbn. split; [discriminate|]. intros [H _]. unfold plugin_demanded in PD. rewrite H in PD. discriminate.
+  - rewrite (not_demanded_caps sc PD). cbn [negb andb caps_to_verify filter nonempty]. rewrite andb_true_r.
+    assert (PA : s_plugin_attr sc = AAbsent)
+      by (unfold plugin_demanded in PD; destruct (s_plugin_attr sc); [reflexivity | discriminate..]).
+    rewrite orb_true_iff. split.
+    + intros [H | H]; (split; [exact PA|]).
+      * left. destruct (other_crit sc); [discriminate | discriminate].
+      * right. destruct (s_minver_attr sc); try discriminate H; split; discriminate.
+    + intros [_ [H | [H1 H2]]].
+      * left. destruct (other_crit sc); [congruence | reflexivity].
+      * right. destruct (s_minver_attr sc); try reflexivity; congruence.
+Qed.
+
+(* ================================================================== *)
+(* G. the oracle for EVERY input (the contract wf_sc is not needed)     *)
+(* ================================================================== *)
+
+(* the reported types: those notation performs, then the plugin's revocation verdicts *)
+Definition types_ok (lvl : level) (sc : scenario) (o : obs) : bool :=
+  let ts := map r_type (o_results o) in
+  let n := List.length (run_types lvl sc) in
+  list_eqb vtype_eqb (firstn n ts) (run_types lvl sc)
+  && forallb (vtype_eqb TRev) (skipn n ts)
+  && (negb (nonempty (skipn n ts)) || (has_cap CapRev (asked lvl sc) && negb (is_none (o_exec o)))).
+
+(* stated on observations only: what is performed, what is asked of the plugin, truthful results *)
+Definition spec_extra_obs (lvl : level) (sc : scenario) (o : obs) : bool :=
+  Bool.eqb (o_rev_called o) (performed lvl sc TRev)
+  && opt_exec_eqb (o_exec o) (if plugin_run lvl sc then Some (asked lvl sc, other_keys sc) else None)
+  && forallb (res_truthful lvl sc) (o_results o)
+  && types_ok lvl sc o.
+
+Definition spec_all (i : input) (o : option obs) : bool :=
+  match get_level (i_level i) (i_override i), o with
+  | inr (_, enf), Some ob =>
+      let lvl := level_of enf in
+      (if wf i then spec_ok_obs lvl (i_sc i) ob
+       else Bool.eqb (negb (accepted ob)) (should_fail_full lvl (i_sc i)))
+      && spec_extra_obs lvl (i_sc i) ob
+  | _, _ => spec_ok i o
+  end.
+
+Definition run_all (cs : list case) : list (N * N * N) :=
+  run_cases c_id
+    (fun c => opt_eqb obs_eqb (model (c_in c)) (c_obs c))
+    (fun c => spec_all (c_in c) (c_obs c))
+    (fun c => fp (c_in c)) cs.
+
+Lemma cap_eqb_eq a b : cap_eqb a b = true <-> a = b.
+Proof. destruct a, b; cbn; split; congruence. Qed.
+
+Lemma opt_exec_eqb_refl x : opt_exec_eqb x x = true.
+Proof.
+  destruct x as [[cs attrs]|]; [|reflexivity]. cbn.
+  rewrite (proj2 (list_eqb_spec _ cap_eqb_eq cs cs) eq_refl), str_list_eqb_refl. reflexivity.
+Qed.
+
+Lemma types_ok_model lvl sc : types_ok lvl sc (verify_core lvl sc) = true.
+Proof.
+  destruct (types_all lvl sc) as (k & E & Z1 & Z2). unfold types_ok. rewrite E.
+  rewrite firstn_app, Nat.sub_diag, firstn_all, firstn_O, app_nil_r.
+  rewrite skipn_app, Nat.sub_diag, skipn_all, skipn_O. cbn [app].
+  rewrite (proj2 (list_eqb_spec _ vtype_eqb_eq _ _) eq_refl). cbn [andb].
+  assert (F : forallb (vtype_eqb TRev) (repeat TRev k) = true)
+    by (apply forallb_forall; intros x H; apply repeat_spec in H; now subst).
+  rewrite F. cbn [andb].
+  destruct k; [reflexivity|]. cbn [repeat nonempty negb orb].
+  destruct (has_cap CapRev (asked lvl sc)); [|now specialize (Z1 eq_refl)].
+  destruct (o_exec (verify_core lvl sc)); [reflexivity | now specialize (Z2 eq_refl)].
+Qed.
+
+Lemma spec_extra_model lvl sc : spec_extra_obs lvl sc (verify_core lvl sc) = true.
+Proof.
+  unfold spec_extra_obs. rewrite rev_called_exact, exec_exact, truthful_all, types_ok_model, opt_exec_eqb_refl.
+  now rewrite Bool.eqb_reflx.
+Qed.
+
+Theorem model_spec_all_partial i : fp i = 0%N -> spec_all i (model i) = true.
+Proof.
+  intros F. unfold spec_all, spec_ok, model. unfold fp in F.
+  destruct (get_level (i_level i) (i_override i)) as [e|[nm enf]]; [reflexivity|].
+  destruct (String.eqb (i_level i) "skip") eqn:SK; [reflexivity|].
+  rewrite spec_extra_model, andb_true_r.
+  assert (FB : f12b (level_of enf) (i_sc i) && negb (should_fail_impl (level_of enf) (i_sc i)) = false)
+    by (destruct (f12b (level_of enf) (i_sc i) && negb (should_fail_impl (level_of enf) (i_sc i))); [discriminate F | reflexivity]).
+  destruct (wf i) eqn:W; [exact (spec_ok_obs_partial _ _ W FB)|].
+  rewrite exact_all, negb_involutive. revert FB.
+  unfold should_fail_full, should_fail_impl, plugin_or_attribute_problem, f12b.
+  generalize (s_integrity_ok (i_sc i)) (s_nonstring_crit (i_sc i)) (plugin_unusable (i_sc i))
+    (enforced_failure (level_of enf) (i_sc i)) (plugin_exec_problem (level_of enf) (i_sc i))
+    (nothing_processes (level_of enf) (i_sc i)) (plugin_demanded (i_sc i)).
+  intros io ns pu ef pe np dem. destruct io, ns, pu, ef, pe, np, dem; cbn; congruence.
+Qed.
+
+(* ---------- forms used by props/C02_Property.v ---------- *)
+Lemma exact_all_iff lvl sc :
+  accepted (verify_core lvl sc) = false <->
+  s_integrity_ok sc = false \/ enforced_failure lvl sc = true \/ plugin_or_attribute_problem lvl sc = true.
+Proof.
+  rewrite exact_all, <- should_fail_impl_iff. destruct (should_fail_impl lvl sc); cbn; split; congruence.
+Qed.
+
+Lemma problem_parts lvl sc :
+  plugin_or_attribute_problem lvl sc = true <->
+  s_nonstring_crit sc = true \/ plugin_unusable sc = true \/ plugin_exec_problem lvl sc = true
+  \/ negb (plugin_demanded sc) && nothing_processes lvl sc = true.
+Proof. unfold plugin_or_attribute_problem. rewrite !orb_true_iff. tauto. Qed.
+
+(* ---------- the earlier statements (with their contract wf_sc) re-derived from the
+   contract-free ones: same statements, proofs that do not go through C02_Core.core_ok ---------- *)
+Lemma exact_thm_s : forall lvl sc, wf_sc sc = true ->
+  (accepted (verify_core lvl sc) = false <->
+   s_integrity_ok sc = false \/ enforced_failure lvl sc = true \/ plugin_or_attribute_problem lvl sc = true).
+Proof. intros lvl sc _. apply exact_all_iff. Qed.
+
+Lemma exact_partial_s lvl sc : wf_sc sc = true -> f12b lvl sc = false ->
+  (accepted (verify_core lvl sc) = false <-> should_fail_full lvl sc = true).
+Proof.
+  intros _ F. rewrite (full_vs_impl lvl sc F), exact_all.
+  destruct (should_fail_impl lvl sc); cbn; split; congruence.
+Qed.
+
+Lemma critical_processed_partial_s lvl sc : wf_sc sc = true ->
+  f12b lvl sc = false -> accepted (verify_core lvl sc) = true ->
+  s_nonstring_crit sc = false
+  /\ (other_crit sc <> [] ->
+      exists processed ti rev cs attrs,
+        s_presp sc = PResp processed ti rev
+        /\ o_exec (verify_core lvl sc) = Some (cs, attrs)
+        /\ forall k, In k (other_crit sc) -> In k processed).
+Proof.
+  intros _ F A.
+  pose proof (exact_all lvl sc) as E. rewrite A in E. symmetry in E. apply negb_true_iff in E.
+  unfold should_fail_impl, plugin_or_attribute_problem in E. rewrite !orb_false_iff in E.
+  destruct E as [[IO [[[NS PU] PE] NP]] EF]. split; [exact NS|]. intros OC.
+  assert (AN : nonempty (asked lvl sc) = true).
+  { unfold f12b in F. destruct (plugin_demanded sc); cbn in F, NP.
+    - unfold nothing_processes, has_critical in F. destruct (other_crit sc); [congruence|]. cbn in F.
+      now apply negb_false_iff in F.
+    - unfold nothing_processes, has_critical in NP. destruct (other_crit sc); [congruence|]. cbn in NP.
+      now apply negb_false_iff in NP. }
+  assert (PR : plugin_run lvl sc = true).
+  { unfold plugin_run, discovery_ok. rewrite AN, NS, PU, andb_true_r. apply negb_false_iff in IO. rewrite IO. cbn [negb andb].
+    (* accepted: the native stage passed *)
+    destruct (run_decomp lvl sc) as [[IO' _] | [(_ & PU' & _) | (_ & _ & _ & gets & EQ)]]; [congruence | |].
+    - rewrite NS, PU in PU'. discriminate.
+    - rewrite EQ, after_native_accepted in A. apply andb_true_iff in A. exact (proj1 A). }
+  pose proof (exec_exact lvl sc) as EX. rewrite PR in EX.
+  unfold plugin_exec_problem in PE. destruct (asked lvl sc) as [|c tv] eqn:AS; [discriminate|].
+  destruct (s_presp sc) as [|processed ti rev]; [discriminate|].
+  rewrite !orb_false_iff in PE. destruct PE as [[CP _] _]. apply negb_false_iff in CP.
+  exists processed, ti, rev, (c :: tv), (other_keys sc). repeat split; [exact EX|].
+  intros k HIn. unfold crit_processed in CP. rewrite forallb_forall in CP. apply mem_str_In. now apply CP.
+Qed.
+
+Lemma log_does_not_fail_s lvl sc : wf_sc sc = true ->
+  (l_auth lvl <> Enforce -> forall n b,
+     accepted (verify_core lvl (set_identity b (set_auth n sc))) = accepted (verify_core lvl sc))
+  /\ (l_exp lvl <> Enforce -> forall b,
+     accepted (verify_core lvl (set_expired b sc)) = accepted (verify_core lvl sc))
+  /\ (l_ts lvl <> Enforce -> forall b,
+     accepted (verify_core lvl (set_ts_ok b sc)) = accepted (verify_core lvl sc))
+  /\ (l_rev lvl <> Enforce -> forall b,
+     accepted (verify_core lvl (set_rev_ok b sc)) = accepted (verify_core lvl sc)).
+Proof.
+  intros _. repeat split; intros NE; intros; rewrite !exact_all.
+  - now rewrite sfi_not_enforced_auth.
+  - now rewrite sfi_not_enforced_expiry.
+  - now rewrite sfi_not_enforced_ts.
+  - now rewrite sfi_not_enforced_rev.
+Qed.
+
+Lemma skip_not_performed_s lvl sc : wf_sc sc = true -> l_rev lvl = Skip ->
+  o_rev_called (verify_core lvl sc) = false
+  /\ (forall cs attrs, o_exec (verify_core lvl sc) = Some (cs, attrs) -> ~ In CapRev cs)
+  /\ (forall r, In r (o_results (verify_core lvl sc)) -> r_type r <> TRev).
+Proof. intros _. apply skip_all. Qed.
+
+Lemma capability_replaces_s : forall lvl sc caps, usable_caps sc = Some caps ->
+  (has_cap CapTI caps = true ->
+     (forall b, verify_core lvl (set_identity b sc) = verify_core lvl sc)
+     /\ identity_failed sc = match s_presp sc with PResp _ (Some false) _ => true | _ => false end)
+  /\ (has_cap CapRev caps = true ->
+     (forall b, verify_core lvl (set_rev_ok b sc) = verify_core lvl sc)
+     /\ (wf_sc sc = true -> o_rev_called (verify_core lvl sc) = false)
+     /\ revocation_failed sc = match s_presp sc with PResp _ _ (Some false) => true | _ => false end).
+Proof.
+  intros lvl sc caps U. split; intros H.
+  - split; [intros b; exact (replaces_identity lvl sc caps b U H) | exact (proj1 (replaces_verdict sc caps U) H)].
+  - split; [intros b; exact (replaces_revocation lvl sc caps b U H)|].
+    split; [| exact (proj2 (replaces_verdict sc caps U) H)].
+    intros _. apply rev_capability_not_consulted. unfold hasRev, caps_of. now rewrite U.
+Qed.
+
+Lemma plugin_request_s lvl sc cs attrs : wf_sc sc = true ->
+  o_exec (verify_core lvl sc) = Some (cs, attrs) ->
+  cs = asked lvl sc /\ cs <> [] /\ attrs = other_keys sc.
+Proof. intros _. apply plugin_request_all. Qed.
+
+Lemma monotone_s l1 l2 sc : wf_sc sc = true -> level_le l1 l2 = true ->
+  accepted (verify_core l1 sc) = true -> accepted (verify_core l2 sc) = true.
+Proof. intros _. apply monotone_all. Qed.
+
+Lemma monotone_named_s ov sc ls lp la : wf_sc sc = true ->
+  level_for "strict" ov = Some ls -> level_for "permissive" ov = Some lp -> level_for "audit" ov = Some la ->
+  (accepted (verify_core ls sc) = true -> accepted (verify_core lp sc) = true)
+  /\ (accepted (verify_core lp sc) = true -> accepted (verify_core la sc) = true).
+Proof. intros _. apply monotone_named_all. Qed.
